@@ -392,14 +392,18 @@ def run_activation(p):
     *_, ac, _, _, _ = _impl()
     r = _rng(p['seed'])
     cls = {'tanh': ac.Tanh, 'arctan': ac.Arctan, 'softplus': ac.Softplus, 'sigmoid': ac.Sigmoid}[p['kind']]
-    node = cls(a=p['a'], x0=p['x0'], y0=p['y0'])
+    _i = (lambda v: int(v) if p.get('intx') and float(v).is_integer() else v)   # integer-valued parameters as Python ints
+    node = cls(a=_i(p['a']), x0=_i(p['x0']), y0=_i(p['y0']))
     x = r.normal(size=tuple(p['shape'])) * 1.5 + p['x0']
+    if p.get('intx'):                      # integer-typed operating points are legitimate forward inputs
+        x = np.round(x * 2).astype(int)
     x_in = x.copy()
     b = node.backprop(x_in)
     unchanged = np.array_equal(x_in, x)
     h = 1e-3 / max(1.0, abs(p['a']))
     fd = (4 * (node.forward(x + h / 2) - node.forward(x - h / 2)) / h - (node.forward(x + h) - node.forward(x - h)) / (2 * h)) / 3
     okc, det = close(b, fd, TOL_FD * max(1.0, abs(p['a'])))
+    x = x.astype(float)
     line = f'act {p["kind"]} ' + rw([p['a'], p['x0'], p['y0'], x.reshape(-1)[0]])
     impl = np.array([node.forward(x).reshape(-1)[0], np.asarray(b).reshape(-1)[0]])
     return Result(okc and unchanged, f'backprop vs central difference of forward: {det}; input left unchanged: {unchanged}',
@@ -601,7 +605,8 @@ def gen_cases(r, item, k):
             out.append(d)
         elif item == 'activation':
             out.append({'kind': ['tanh', 'arctan', 'softplus', 'sigmoid'][i % 4], 'a': float(r.choice([1.0, 0.5, 2.5, -1.3])),
-                        'x0': float(r.choice([0.0, 0.7, -1.2])), 'y0': float(r.choice([0.0, -0.4, 2.0])), 'shape': _shape(r, 1, 4), 'seed': seed})
+                        'x0': float(r.choice([0.0, 0.7, -1.2])), 'y0': float(r.choice([0.0, -0.4, 2.0])), 'shape': _shape(r, 1, 4), 'seed': seed,
+                        'intx': (i // 4) % 3 == 2})
         elif item == 'sg':
             out.append({'axis': 'xy'[i % 2], 'shape': _shape(r, 1, 9), 'complex': i % 5 == 0, 'seed': seed})
         elif item == 'cost':
@@ -685,7 +690,8 @@ def small_cases(item):
     elif item == 'activation':
         for kind in ('tanh', 'arctan', 'softplus', 'sigmoid'):
             for a, x0, y0 in ((1.0, 0.0, 0.0), (2.5, 0.7, -0.4), (-1.3, -1.2, 2.0)):
-                yield {'kind': kind, 'a': a, 'x0': x0, 'y0': y0, 'shape': [2, 3], 'seed': 7}
+                for intx in (False, True):
+                    yield {'kind': kind, 'a': a, 'x0': x0, 'y0': y0, 'shape': [2, 3], 'seed': 7, 'intx': intx}
     elif item == 'sg':
         for tot in range(2, 14):
             for m in range(1, tot):
